@@ -210,6 +210,8 @@ class BlobExchangeClientProtocol(asyncio.Protocol):
             if self.writer and not self.writer.closed():
                 self.writer.close_handle()
                 self.writer = None
+            # the request is over: whatever a peer sends on an idle kept connection is unsolicited
+            self._response_fut = None
 
     def connection_made(self, transport: asyncio.Transport):
         addr = transport.get_extra_info('peername')
